@@ -90,6 +90,16 @@ PLAN = {
 }
 
 MANIFEST_TEXT = {
+    "C15": {
+        "text": "Printer contracts on the real format_as_spec of Star/Plus/Option/Repetition/Alternative/NonTerminalNode by ghost "
+                "binding level (ATOM < POSTFIX < SEQ < ALT, from the reader's grammar): a postfix operator prints its operand as a "
+                "single symbol (grouped unless literal, <nonterminal> or parenthesised alternative) for every operand class, open "
+                "upper bounds stay open, party annotations are printed; all VCs discharged. Bounded half: print -> re-read -> "
+                "compare bounded languages and constraint verdicts over ~40 specs and literals with quotes/backslashes/non-ASCII.",
+        "note": "TerminalNode/Concatenation printers and the reader's grammar are assumed; quoting of literals and constraint "
+                "printing are only in the bounded half (4 recorded findings there).",
+        "technique": "contract-based deductive verification (string theory, ghost binding level) + bounded round-trip check",
+    },
     "C01": {
         "text": "Bounded stand-in: every tree returned by Grammar.fuzz (node budgets 1/5/50) and by Fandango.fuzz (evolutionary "
                 "search with repair, crossover, mutation; generators) over the shared spec family and search-heavy specs is "
